@@ -1,1 +1,326 @@
-//! C12 harnesses (not written yet).
+//! C12 — conversions between implementations preserve the length and every bit.
+//!
+//! Oracle, on the raw storage of the result (`into_raw()`, padding and spare words
+//! included): a conversion into a fixed type `T` is `Ok` with `len == len(src)` and
+//! storage `== val(src)` iff `len(src) <= T::capacity()`, and `Err(NotEnoughCapacity)`
+//! otherwise; a conversion into `Bvd`/`Bv` always yields `(len(src), val(src))` with
+//! `len <= capacity`. By-reference conversions leave the source untouched.
+//! `new(into_inner(v))` reproduces `v` structurally (all storage words, length, capacity).
+//!
+//! Cost rules: conversions into `Bvd` (and into `Bv` from a fixed type wider than 128 bits)
+//! allocate by the source *length*: a concrete length lattice plus symbolic lengths for sources
+//! of up to two 64-bit words in the quick tier (measured 10-25 s each), symbolic lengths for
+//! three/four-word sources in the thorough tier. Everything else has symbolic lengths.
+use crate::big::Big;
+use crate::nd;
+use crate::scopes::*;
+use bva::{Bit, BitVector, Bv, Bvd, Bvf, ConvertionError};
+
+/// Result of a fallible conversion of a source with raw view `$ra` into the fixed type `$T`.
+macro_rules! check_try {
+    ($res:expr, $ra:ident, $T:ty) => {
+        let cap = <$T>::capacity();
+        match $res {
+            Ok(v) => {
+                let r = v.into_raw();
+                assert!($ra.len <= cap, "C12: conversion succeeded although the source is longer than the target capacity");
+                assert!(r.len == $ra.len, "C12: length changed by the conversion");
+                assert!(r.v == $ra.v, "C12: bits changed by the conversion (or result padding not zero)");
+            }
+            Err(e) => {
+                assert!($ra.len > cap, "C12: conversion failed although the source length fits the target capacity");
+                assert!(e == ConvertionError::NotEnoughCapacity, "C12: wrong error");
+            }
+        }
+    };
+}
+
+/// Result (raw view `$r`) of an infallible conversion of a source with raw view `$ra`.
+macro_rules! check_same {
+    ($r:ident, $ra:ident) => {
+        assert!($r.len == $ra.len, "C12: length changed by the conversion");
+        assert!($r.v == $ra.v, "C12: bits changed by the conversion (or result padding/spare words not zero)");
+        assert!($r.len <= $r.cap, "C12: len > capacity");
+    };
+}
+
+/// Witnesses for a fallible conversion; `$tw` = bits of the target's storage word.
+macro_rules! wit_try {
+    ($ra:ident, $T:ty, $tw:literal) => {
+        let tcap = <$T>::capacity();
+        w!($ra.len == if tcap < $ra.cap { tcap } else { $ra.cap }, "source exactly as long as the target capacity (or a full source if that is shorter)");
+        w!(if $ra.cap > tcap { $ra.len == tcap + 1 } else { $ra.len == 0 }, "source one bit longer than the target capacity (or empty if it cannot be longer)");
+        w!($ra.len % $tw != 0 && $ra.len <= tcap && $ra.v.bit($ra.len - 1), "fitting length that is not a multiple of the target word, top bit set");
+        w!($ra.len + 8 <= $ra.cap && !$ra.v.is_zero(), "non-zero value below unused storage");
+    };
+}
+
+/// Witnesses for an infallible conversion with a symbolic source length.
+macro_rules! wit_any {
+    ($ra:ident) => {
+        w!($ra.len == $ra.cap && $ra.v.bit($ra.len - 1), "full source, top bit set");
+        w!($ra.len == 0, "empty source");
+        w!($ra.len % 64 != 0 && $ra.v.bit($ra.len - 1), "length that is not a multiple of 64, top bit set");
+        w!($ra.len + 8 <= $ra.cap && !$ra.v.is_zero(), "non-zero value below unused storage");
+    };
+}
+
+/// Witnesses when the source length is concrete (contents symbolic).
+macro_rules! wit_conc {
+    ($ra:ident) => {
+        w!($ra.len == 0 || $ra.v.bit($ra.len - 1), "empty, or top bit set");
+        w!($ra.len == 0 || !$ra.v.bit($ra.len - 1), "empty, or top bit clear");
+        w!($ra.len < 2 || ($ra.v.bit(0) && !$ra.v.bit(1)), "shorter than two bits, or bits 0 and 1 differ");
+    };
+}
+
+// =============================================================================================
+// Fallible conversions into Bvf
+// =============================================================================================
+
+/// `T::try_from(&src)`; the source stays intact.
+macro_rules! h_try_ref {
+    ($name:ident, $unw:literal, $src:expr, $T:ty, $tw:literal) => {
+        harness!($name, $unw, {
+            let (a, ra) = $src;
+            wit_try!(ra, $T, $tw);
+            check_try!(<$T>::try_from(&a), ra, $T);
+            assert!(a.into_raw() == ra, "C12: source modified by a by-reference conversion");
+        });
+    };
+}
+
+/// `T::try_from(src)`.
+macro_rules! h_try_val {
+    ($name:ident, $unw:literal, $src:expr, $T:ty, $tw:literal) => {
+        harness!($name, $unw, {
+            let (a, ra) = $src;
+            wit_try!(ra, $T, $tw);
+            check_try!(<$T>::try_from(a), ra, $T);
+        });
+    };
+}
+
+// ---- Bvf -> Bvf (by reference only: no by-value impl exists) ------------------------------------
+// unwind: target words (outer loop, symbolic bound) vs. target word / source word (inner loop)
+h_try_ref!(c12_q_f8x2_to_f8x2, 4, f8x2(anylen(16)), Bvf<u8, 2>, 8);
+h_try_ref!(c12_q_f8x2_to_f8x3, 5, f8x2(anylen(16)), Bvf<u8, 3>, 8);
+h_try_ref!(c12_q_f8x2_to_f16x1, 4, f8x2(anylen(16)), Bvf<u16, 1>, 16);
+h_try_ref!(c12_q_f8x2_to_f16x2, 4, f8x2(anylen(16)), Bvf<u16, 2>, 16);
+h_try_ref!(c12_q_f8x2_to_f64x2, 10, f8x2(anylen(16)), Bvf<u64, 2>, 64);
+h_try_ref!(c12_q_f8x2_to_f64x3, 10, f8x2(anylen(16)), Bvf<u64, 3>, 64);
+h_try_ref!(c12_q_f8x3_to_f8x2, 4, f8x3(anylen(24)), Bvf<u8, 2>, 8);
+h_try_ref!(c12_q_f8x3_to_f8x3, 5, f8x3(anylen(24)), Bvf<u8, 3>, 8);
+h_try_ref!(c12_q_f8x3_to_f16x1, 4, f8x3(anylen(24)), Bvf<u16, 1>, 16);
+h_try_ref!(c12_q_f8x3_to_f16x2, 4, f8x3(anylen(24)), Bvf<u16, 2>, 16);
+h_try_ref!(c12_q_f8x3_to_f64x2, 10, f8x3(anylen(24)), Bvf<u64, 2>, 64);
+h_try_ref!(c12_q_f8x3_to_f64x3, 10, f8x3(anylen(24)), Bvf<u64, 3>, 64);
+h_try_ref!(c12_q_f16x1_to_f8x2, 4, f16x1(anylen(16)), Bvf<u8, 2>, 8);
+h_try_ref!(c12_q_f16x1_to_f8x3, 5, f16x1(anylen(16)), Bvf<u8, 3>, 8);
+h_try_ref!(c12_q_f16x1_to_f16x1, 3, f16x1(anylen(16)), Bvf<u16, 1>, 16);
+h_try_ref!(c12_q_f16x1_to_f16x2, 4, f16x1(anylen(16)), Bvf<u16, 2>, 16);
+h_try_ref!(c12_q_f16x1_to_f64x2, 6, f16x1(anylen(16)), Bvf<u64, 2>, 64);
+h_try_ref!(c12_q_f16x1_to_f64x3, 6, f16x1(anylen(16)), Bvf<u64, 3>, 64);
+h_try_ref!(c12_q_f16x2_to_f8x2, 4, f16x2(anylen(32)), Bvf<u8, 2>, 8);
+h_try_ref!(c12_q_f16x2_to_f8x3, 5, f16x2(anylen(32)), Bvf<u8, 3>, 8);
+h_try_ref!(c12_q_f16x2_to_f16x1, 3, f16x2(anylen(32)), Bvf<u16, 1>, 16);
+h_try_ref!(c12_q_f16x2_to_f16x2, 4, f16x2(anylen(32)), Bvf<u16, 2>, 16);
+h_try_ref!(c12_q_f16x2_to_f64x2, 6, f16x2(anylen(32)), Bvf<u64, 2>, 64);
+h_try_ref!(c12_q_f16x2_to_f64x3, 6, f16x2(anylen(32)), Bvf<u64, 3>, 64);
+h_try_ref!(c12_q_f64x2_to_f8x2, 4, f64x2(anylen(128)), Bvf<u8, 2>, 8);
+h_try_ref!(c12_q_f64x2_to_f8x3, 5, f64x2(anylen(128)), Bvf<u8, 3>, 8);
+h_try_ref!(c12_q_f64x2_to_f16x1, 3, f64x2(anylen(128)), Bvf<u16, 1>, 16);
+h_try_ref!(c12_q_f64x2_to_f16x2, 4, f64x2(anylen(128)), Bvf<u16, 2>, 16);
+h_try_ref!(c12_q_f64x2_to_f64x2, 4, f64x2(anylen(128)), Bvf<u64, 2>, 64);
+h_try_ref!(c12_q_f64x2_to_f64x3, 5, f64x2(anylen(128)), Bvf<u64, 3>, 64);
+h_try_ref!(c12_q_f64x3_to_f8x2, 4, f64x3(anylen(192)), Bvf<u8, 2>, 8);
+h_try_ref!(c12_q_f64x3_to_f8x3, 5, f64x3(anylen(192)), Bvf<u8, 3>, 8);
+h_try_ref!(c12_q_f64x3_to_f16x1, 3, f64x3(anylen(192)), Bvf<u16, 1>, 16);
+h_try_ref!(c12_q_f64x3_to_f16x2, 4, f64x3(anylen(192)), Bvf<u16, 2>, 16);
+h_try_ref!(c12_q_f64x3_to_f64x2, 4, f64x3(anylen(192)), Bvf<u64, 2>, 64);
+h_try_ref!(c12_q_f64x3_to_f64x3, 5, f64x3(anylen(192)), Bvf<u64, 3>, 64);
+// further word types
+h_try_ref!(c12_q_f32x2_to_f8x4, 6, f32x2(anylen(64)), Bvf<u8, 4>, 8);
+h_try_ref!(c12_q_f8x4_to_f32x1, 6, f8x4(anylen(32)), Bvf<u32, 1>, 32);
+h_try_ref!(c12_q_f128x2_to_f64x3, 5, f128x2(anylen(256)), Bvf<u64, 3>, 64);
+h_try_ref!(c12_q_f64x3_to_f128x1, 4, f64x3(anylen(192)), Bvf<u128, 1>, 128);
+h_try_ref!(c12_q_fuszx2_to_f64x2, 4, fuszx2(anylen(128)), Bvf<u64, 2>, 64);
+h_try_ref!(c12_q_f64x2_to_fuszx2, 4, f64x2(anylen(128)), Bvf<usize, 2>, 64);
+
+// ---- Bvd -> Bvf (sources with spare words; lengths beyond the target capacity) -------------------
+h_try_ref!(c12_q_bvd1_to_f8x2, 4, bvd1(anylen(64)), Bvf<u8, 2>, 8);
+h_try_val!(c12_q_bvd2_into_f8x3, 5, bvd2(anylen(128)), Bvf<u8, 3>, 8);
+h_try_ref!(c12_q_bvd2_to_f16x2, 4, bvd2(anylen(128)), Bvf<u16, 2>, 16);
+h_try_val!(c12_q_bvd1_into_f16x1, 4, bvd1(anylen(64)), Bvf<u16, 1>, 16);
+h_try_ref!(c12_q_bvd3_to_f64x2, 5, bvd3(anylen(192)), Bvf<u64, 2>, 64);
+h_try_val!(c12_q_bvd3_into_f64x2, 5, bvd3(anylen(192)), Bvf<u64, 2>, 64);
+h_try_ref!(c12_q_bvd2_to_f64x3, 5, bvd2(anylen(128)), Bvf<u64, 3>, 64);
+h_try_val!(c12_q_bvd3_into_f64x3, 5, bvd3(anylen(192)), Bvf<u64, 3>, 64);
+h_try_ref!(c12_q_bvd3_to_f8x2, 5, bvd3(anylen(192)), Bvf<u8, 2>, 8);
+h_try_val!(c12_q_bvd2_into_f16x2, 4, bvd2(anylen(128)), Bvf<u16, 2>, 16);
+h_try_ref!(c12_q_bvd4_to_f64x3, 6, bvd4(anylen(256)), Bvf<u64, 3>, 64);
+h_try_ref!(c12_q_bvd3_to_f128x1, 5, bvd3(anylen(192)), Bvf<u128, 1>, 128);
+h_try_val!(c12_q_bvd2_into_f32x2, 4, bvd2(anylen(128)), Bvf<u32, 2>, 32);
+
+// ---- Bv -> Bvf (both storage modes) --------------------------------------------------------------
+h_try_ref!(c12_q_bvfix_to_f8x2, 4, bvfix(anylen(128)), Bvf<u8, 2>, 8);
+h_try_val!(c12_q_bvfix_into_f8x3, 5, bvfix(anylen(128)), Bvf<u8, 3>, 8);
+h_try_ref!(c12_q_bvfix_to_f16x2, 4, bvfix(anylen(128)), Bvf<u16, 2>, 16);
+h_try_ref!(c12_q_bvfix_to_f64x2, 4, bvfix(anylen(128)), Bvf<u64, 2>, 64);
+h_try_val!(c12_q_bvfix_into_f64x3, 5, bvfix(anylen(128)), Bvf<u64, 3>, 64);
+h_try_ref!(c12_q_bvdyn2_to_f8x3, 5, bvdyn2(anylen(128)), Bvf<u8, 3>, 8);
+h_try_val!(c12_q_bvdyn2_into_f16x1, 4, bvdyn2(anylen(128)), Bvf<u16, 1>, 16);
+h_try_ref!(c12_q_bvdyn3_to_f64x2, 5, bvdyn3(anylen(192)), Bvf<u64, 2>, 64);
+h_try_val!(c12_q_bvdyn3_into_f64x3, 5, bvdyn3(anylen(192)), Bvf<u64, 3>, 64);
+h_try_val!(c12_q_bvdyn3_into_f8x2, 5, bvdyn3(anylen(192)), Bvf<u8, 2>, 8);
+h_try_ref!(c12_q_bvdyn1_to_f16x2, 4, bvdyn1(anylen(64)), Bvf<u16, 2>, 16);
+h_try_ref!(c12_q_bvfix_to_f128x1, 4, bvfix(anylen(128)), Bvf<u128, 1>, 128);
+h_try_ref!(c12_q_bvdyn3_to_f128x1, 5, bvdyn3(anylen(192)), Bvf<u128, 1>, 128);
+
+// =============================================================================================
+// Infallible conversions into Bvd / Bv
+// =============================================================================================
+
+/// `T::from(&src)`.
+macro_rules! h_from_ref {
+    ($name:ident, $unw:literal, $src:expr, $T:ty, $wit:ident) => {
+        harness!($name, $unw, {
+            let (a, ra) = $src;
+            $wit!(ra);
+            let r = <$T>::from(&a).into_raw();
+            check_same!(r, ra);
+            assert!(a.into_raw() == ra, "C12: source modified by a by-reference conversion");
+        });
+    };
+}
+
+/// `T::from(src)`.
+macro_rules! h_from_val {
+    ($name:ident, $unw:literal, $src:expr, $T:ty, $wit:ident) => {
+        harness!($name, $unw, {
+            let (a, ra) = $src;
+            $wit!(ra);
+            let r = <$T>::from(a).into_raw();
+            check_same!(r, ra);
+        });
+    };
+}
+
+// ---- Bvf -> Bvd: allocates ceil(len/64) words: concrete length lattice (quick) -------------------
+h_from_ref!(c12_q_f8x2_to_bvd_l0, 10, f8x2(0), Bvd, wit_conc);
+h_from_val!(c12_q_f8x2_into_bvd_l5, 10, f8x2(5), Bvd, wit_conc);
+h_from_ref!(c12_q_f8x2_to_bvd_l16, 10, f8x2(16), Bvd, wit_conc);
+h_from_val!(c12_q_f8x3_into_bvd_l17, 10, f8x3(17), Bvd, wit_conc);
+h_from_ref!(c12_q_f8x3_to_bvd_l24, 10, f8x3(24), Bvd, wit_conc);
+h_from_ref!(c12_q_f16x2_to_bvd_l31, 6, f16x2(31), Bvd, wit_conc);
+h_from_val!(c12_q_f64x2_into_bvd_l0, 4, f64x2(0), Bvd, wit_conc);
+h_from_ref!(c12_q_f64x2_to_bvd_l1, 4, f64x2(1), Bvd, wit_conc);
+h_from_val!(c12_q_f64x2_into_bvd_l64, 4, f64x2(64), Bvd, wit_conc);
+h_from_ref!(c12_q_f64x2_to_bvd_l65, 4, f64x2(65), Bvd, wit_conc);
+h_from_val!(c12_q_f64x2_into_bvd_l127, 4, f64x2(127), Bvd, wit_conc);
+h_from_ref!(c12_q_f64x2_to_bvd_l128, 4, f64x2(128), Bvd, wit_conc);
+h_from_ref!(c12_q_f64x3_to_bvd_l129, 5, f64x3(129), Bvd, wit_conc);
+h_from_val!(c12_q_f64x3_into_bvd_l192, 5, f64x3(192), Bvd, wit_conc);
+// ... and symbolic lengths (about 10-25 s each for up to two words)
+h_from_ref!(c12_q_f8x2_to_bvd, 10, f8x2(anylen(16)), Bvd, wit_any);
+h_from_val!(c12_q_f8x3_into_bvd, 10, f8x3(anylen(24)), Bvd, wit_any);
+h_from_val!(c12_q_f16x2_into_bvd, 6, f16x2(anylen(32)), Bvd, wit_any);
+h_from_ref!(c12_q_f64x2_to_bvd, 4, f64x2(anylen(128)), Bvd, wit_any);
+h_from_val!(c12_q_f64x2_into_bvd, 4, f64x2(anylen(128)), Bvd, wit_any);
+// three and four words, symbolic length (thorough)
+h_from_ref!(c12_t_f64x3_to_bvd, 5, f64x3(anylen(192)), Bvd, wit_any);
+h_from_val!(c12_t_f64x3_into_bvd, 5, f64x3(anylen(192)), Bvd, wit_any);
+h_from_ref!(c12_t_f128x2_to_bvd, 6, f128x2(anylen(256)), Bvd, wit_any);
+h_from_val!(c12_t_f128x2_into_bv, 6, f128x2(anylen(256)), Bv, wit_any);
+h_from_ref!(c12_t_f64x3_to_bv, 5, f64x3(anylen(192)), Bv, wit_any);
+
+// ---- Bvf -> Bv: inline for capacities up to 128 bits (no allocation: symbolic lengths) ----------
+h_from_ref!(c12_q_f8x2_to_bv, 10, f8x2(anylen(16)), Bv, wit_any);
+h_from_val!(c12_q_f8x3_into_bv, 10, f8x3(anylen(24)), Bv, wit_any);
+h_from_ref!(c12_q_f16x1_to_bv, 6, f16x1(anylen(16)), Bv, wit_any);
+h_from_val!(c12_q_f16x2_into_bv, 6, f16x2(anylen(32)), Bv, wit_any);
+h_from_ref!(c12_q_f64x2_to_bv, 4, f64x2(anylen(128)), Bv, wit_any);
+h_from_val!(c12_q_f64x2_into_bv, 4, f64x2(anylen(128)), Bv, wit_any);
+h_from_ref!(c12_q_f32x2_to_bv, 4, f32x2(anylen(64)), Bv, wit_any);
+h_from_val!(c12_q_f128x1_into_bv, 4, f128x1(anylen(128)), Bv, wit_any);
+// wider fixed types go to the heap whatever their length: length lattice
+h_from_ref!(c12_q_f64x3_to_bv_l0, 5, f64x3(0), Bv, wit_conc);
+h_from_val!(c12_q_f64x3_into_bv_l100, 5, f64x3(100), Bv, wit_conc);
+h_from_ref!(c12_q_f64x3_to_bv_l128, 5, f64x3(128), Bv, wit_conc);
+h_from_val!(c12_q_f64x3_into_bv_l129, 5, f64x3(129), Bv, wit_conc);
+h_from_ref!(c12_q_f64x3_to_bv_l192, 5, f64x3(192), Bv, wit_conc);
+h_from_ref!(c12_q_f128x2_to_bv_l200, 6, f128x2(200), Bv, wit_conc);
+h_from_val!(c12_q_f64x3_into_bv, 5, f64x3(anylen(192)), Bv, wit_any);
+
+// ---- Bvd -> Bvd, Bvd -> Bv (storage cloned or moved: word count concrete, length symbolic) -------
+h_from_ref!(c12_q_bvd2_to_bvd, 4, bvd2(anylen(128)), Bvd, wit_any);
+h_from_ref!(c12_q_bvd3_to_bvd, 5, bvd3(anylen(192)), Bvd, wit_any);
+h_from_ref!(c12_q_bvd1_to_bv, 4, bvd1(anylen(64)), Bv, wit_any);
+h_from_val!(c12_q_bvd2_into_bv, 4, bvd2(anylen(128)), Bv, wit_any);
+h_from_ref!(c12_q_bvd3_to_bv, 5, bvd3(anylen(192)), Bv, wit_any);
+h_from_val!(c12_q_bvd3_into_bv, 5, bvd3(anylen(192)), Bv, wit_any);
+h_from_val!(c12_q_bvd4_into_bv, 6, bvd4(anylen(256)), Bv, wit_any);
+h_from_ref!(c12_q_bvd2_to_bv, 4, bvd2(anylen(128)), Bv, wit_any);
+
+// ---- Bv -> Bvd, Bv -> Bv ---------------------------------------------------------------------------
+// heap mode: clone or move
+h_from_ref!(c12_q_bvdyn2_to_bvd, 4, bvdyn2(anylen(128)), Bvd, wit_any);
+h_from_val!(c12_q_bvdyn3_into_bvd, 5, bvdyn3(anylen(192)), Bvd, wit_any);
+h_from_ref!(c12_q_bvdyn3_to_bv, 5, bvdyn3(anylen(192)), Bv, wit_any);
+h_from_ref!(c12_q_bvfix_to_bv, 4, bvfix(anylen(128)), Bv, wit_any);
+h_from_ref!(c12_q_bvdyn1_to_bv, 4, bvdyn1(anylen(64)), Bv, wit_any);
+// inline mode into Bvd allocates by length: lattice, then symbolic
+h_from_ref!(c12_q_bvfix_to_bvd_l0, 4, bvfix(0), Bvd, wit_conc);
+h_from_val!(c12_q_bvfix_into_bvd_l1, 4, bvfix(1), Bvd, wit_conc);
+h_from_ref!(c12_q_bvfix_to_bvd_l64, 4, bvfix(64), Bvd, wit_conc);
+h_from_val!(c12_q_bvfix_into_bvd_l65, 4, bvfix(65), Bvd, wit_conc);
+h_from_ref!(c12_q_bvfix_to_bvd_l128, 4, bvfix(128), Bvd, wit_conc);
+h_from_ref!(c12_q_bvfix_to_bvd, 4, bvfix(anylen(128)), Bvd, wit_any);
+h_from_val!(c12_q_bvfix_into_bvd, 4, bvfix(anylen(128)), Bvd, wit_any);
+
+// =============================================================================================
+// new(into_inner(v)) == v, structurally
+// =============================================================================================
+
+macro_rules! h_rebuild_bvf {
+    ($name:ident, $src:expr) => {
+        harness!($name, 2, {
+            let (a, ra) = $src;
+            w!(ra.len == ra.cap, "full");
+            w!(ra.len == 0, "empty");
+            w!(ra.len % 8 == 3 && ra.v.bit(ra.len - 1), "partial last word, top bit set");
+            let (data, len) = a.into_inner();
+            assert!(len == ra.len, "C12: into_inner() returned a different length");
+            let b = Bvf::new(data, len);
+            assert!(b.into_raw() == ra, "C12: new(into_inner(v)) differs from v");
+        });
+    };
+}
+
+h_rebuild_bvf!(c12_q_rebuild_f8x2, f8x2(anylen(16)));
+h_rebuild_bvf!(c12_q_rebuild_f8x3, f8x3(anylen(24)));
+h_rebuild_bvf!(c12_q_rebuild_f16x2, f16x2(anylen(32)));
+h_rebuild_bvf!(c12_q_rebuild_f64x2, f64x2(anylen(128)));
+h_rebuild_bvf!(c12_q_rebuild_f64x3, f64x3(anylen(192)));
+h_rebuild_bvf!(c12_q_rebuild_f32x2, f32x2(anylen(64)));
+h_rebuild_bvf!(c12_q_rebuild_fuszx2, fuszx2(anylen(128)));
+h_rebuild_bvf!(c12_q_rebuild_f128x2, f128x2(anylen(256)));
+
+macro_rules! h_rebuild_bvd {
+    ($name:ident, $src:expr) => {
+        harness!($name, 2, {
+            let (a, ra) = $src;
+            w!(ra.len == ra.cap, "full");
+            w!(ra.len == 0, "empty");
+            w!(ra.len + 64 <= ra.cap && ra.len % 8 == 3 && ra.v.bit(ra.len - 1), "spare word, partial last word, top bit set");
+            let (data, len) = a.into_inner();
+            assert!(len == ra.len && data.len() * 64 == ra.cap, "C12: into_inner() returned a different length or storage size");
+            let b = Bvd::new(data, len);
+            assert!(b.into_raw() == ra, "C12: new(into_inner(v)) differs from v");
+        });
+    };
+}
+
+h_rebuild_bvd!(c12_q_rebuild_bvd2, bvd2(anylen(128)));
+h_rebuild_bvd!(c12_q_rebuild_bvd3, bvd3(anylen(192)));
+h_rebuild_bvd!(c12_q_rebuild_bvd4, bvd4(anylen(256)));
